@@ -75,3 +75,39 @@ def record(case, viols, *, nt=None, tags=(), counts=None, gray=0, sample=None,
     return {"case": case["id"], "violations": viols, "nt": nt,
             "tags": list(tags), "counts": counts or {}, "gray": gray,
             "sample": sample, "max": maxes or {}, "skipped": skipped}
+
+
+def boundary_signature(rec):
+    """Bitwise signature of a run at the user boundary (spies + result)."""
+    import hashlib
+    h = hashlib.sha1()
+    for e in rec.run.log:
+        h.update(e["t"].encode())
+        h.update(e["x"].tobytes())
+        v = e.get("v")
+        if v is not None:
+            h.update(np.asarray(v, dtype=float).tobytes())
+    if rec.exc is not None:
+        h.update(type(rec.exc).__name__.encode())
+    elif rec.res is not None:
+        r = rec.res
+        h.update(np.asarray(r.x, dtype=float).tobytes())
+        h.update(np.float64(r.fun).tobytes())
+        h.update(repr((int(r.status), int(r.nfev), int(r.nit))).encode())
+    return h.hexdigest()
+
+
+def audit(spec, rec, counts):
+    """Harness self-check: the same spec run without the check's monitors
+    (taps only) must be bitwise identical at the user boundary.  Returns a
+    list with one violation record when the monitors interfered."""
+    from .oracles import V
+    plain = mrun.run(spec)
+    counts["noninterference_audits"] = counts.get(
+        "noninterference_audits", 0) + 1
+    if boundary_signature(plain) != boundary_signature(rec):
+        return [V("monitor_interferes",
+                  "harness self-check: the run with this check's monitors "
+                  "attached differs from the plain run",
+                  mechanism="harness:monitor")]
+    return []
